@@ -139,6 +139,7 @@ def run_threads(case, Ctx, run_thread):
 
     def body(i):
         ctx = Ctx(prog, case.get("variant", 0), sched=baton, name=i + 1)
+        ctx.shared_ops = bool(case.get("shared_ops"))
         try:
             if baton.micro_seed:
                 sys.settrace(tracer_for(i + 1))
